@@ -257,6 +257,9 @@ func visitInstr(fr *frame, instr ssa.Instruction) continuation {
 	case *ssa.Store:
 		switch addr := fr.get(instr.Addr).(type) {
 		case *value:
+			if sched != nil {
+				sched.onStore(addr, fr.get(instr.Val))
+			}
 			store(mustDeref(instr.Addr.Type()), addr, fr.get(instr.Val))
 		case symPtr:
 			storeCell(addr.cells, addr.idx, fr.get(instr.Val))
@@ -426,6 +429,9 @@ func visitInstr(fr *frame, instr ssa.Instruction) continuation {
 		case *omap:
 			if m == nil {
 				panic(runtimeError("assignment to entry in nil map"))
+			}
+			if sched != nil {
+				sched.onMapWrite(m)
 			}
 			m.insert(key, v)
 		default:
